@@ -9,6 +9,7 @@ mod jobs;
 #[global_allocator]
 static GLOBAL: worker::CapAlloc = worker::CapAlloc;
 mod c02;
+mod c03;
 mod c09;
 mod c13;
 mod c14;
@@ -52,6 +53,15 @@ fn main() {
         ("search", "C02") => {
             let mut s = util::Search::new();
             c02::search(&tier, seed, &mut s);
+            s.finish();
+        }
+        ("corr", "C03") => {
+            let mut c = util::Corr::new();
+            c03::corr(&tier, seed, &mut c);
+        }
+        ("search", "C03") => {
+            let mut s = util::Search::new();
+            c03::search(&tier, seed, &mut s);
             s.finish();
         }
         ("corr", "C09") => {
